@@ -3,7 +3,10 @@
 (* only by a goroutine whose transaction holds that inode's lock. The trace is    *)
 (* the sequence of lock events (got/rel, from fstxn.VerifHook) and inode-method   *)
 (* entries (acc, from inode.VerifAccess), totally ordered by one counter taken    *)
-(* under one mutex, each tagged with the goroutine that executed it.              *)
+(* under one mutex, each tagged with the goroutine that executed it. Accesses to  *)
+(* shared memory outside the inodes are observed by running the same histories     *)
+(* under Go's race detector: a report about two accesses in server code is an       *)
+(* event of the trace ("race") and is rejected.                                      *)
 EXTENDS Integers, Sequences, FiniteSets, TLC, Json, IOUtils
 TraceFile == IF "TRACE" \in DOMAIN IOEnv THEN IOEnv.TRACE ELSE "trace.ndjson"
 Trace == ndJsonDeserialize(TraceFile)
@@ -16,6 +19,10 @@ Consume ==
   /\ l <= Len(Trace) /\ l' = l + 1
   /\ LET e == Trace[l] IN
      IF e.ev = "reset" THEN held' = <<>> /\ seg' = e.seg /\ nacc' = nacc
+     ELSE IF e.ev = "race" THEN      \* a report of Go's race detector about two accesses in server code (appended by the engine)
+          /\ PrintT("VIOL " \o ToJson([line |-> l, seg |-> seg, rules |-> <<"C14:unsynchronised-accesses-observed-by-the-race-detector">>,
+                                        ev |-> "race", proc |-> e.what, i |-> 0]))
+          /\ UNCHANGED <<held, seg, nacc>>
      ELSE IF e.ev # "lk" THEN UNCHANGED <<held, seg, nacc>>
      ELSE /\ seg' = seg
           /\ CASE e.k = "got" -> held' = (e.g :> (HeldBy(e.g) \cup {e.inum})) @@ held /\ nacc' = nacc
